@@ -10,6 +10,9 @@ from .loop import Cancel
 from .tools import TOOLS, AGGS, lib
 
 
+MAX_YIELDS = 3000
+
+
 class Run:
     """What one execution of a spec produced"""
 
@@ -34,14 +37,33 @@ class Run:
         self.cancelled = None
 
 
+def _build_sources(spec, world, make):
+    plans = list(spec.srcs)
+    outer = None
+    if spec.tool == "chain" and spec.p.get("form") == 2:
+        outer = plans.pop()
+    srcs = [make(world, p) for p in plans]
+    alias = spec.p.get("alias")
+    if alias:
+        # the very same iterator object in two argument positions
+        srcs[alias[1]] = srcs[alias[0]]
+    if outer is not None:
+        # the lazy outer iterable of chain.from_iterable delivers the member objects of this world
+        from .actors import SrcPlan
+        plan = SrcPlan(outer.name, [s.obj for s in srcs], outer.flavour, outer.suspend,
+                       outer.aclose_suspends, aclose_mode=outer.aclose_mode)
+        srcs.append(make(world, plan))
+    return srcs
+
+
 def build_async(spec, world):
-    srcs = [make_async_source(world, p) for p in spec.srcs]
+    srcs = _build_sources(spec, world, make_async_source)
     fns = [make_async_fn(world, p) if p is not None else None for p in spec.fns]
     return srcs, fns
 
 
 def build_ref(spec, world, containers=False):
-    srcs = [make_ref_source(world, p, containers) for p in spec.srcs]
+    srcs = _build_sources(spec, world, lambda w, p: make_ref_source(w, p, containers))
     fns = [make_ref_fn(world, p) if p is not None else None for p in spec.fns]
     return srcs, fns
 
@@ -91,6 +113,11 @@ async def drive_tool(spec, run, steps=None, close=False, keep_items=True):
             if keep_items:
                 run.yields.append(item)
             del item
+            if n >= MAX_YIELDS:
+                # finite inputs, yet the tool does not end: stop driving it (the logs will differ from the stdlib's)
+                log.append(("end", "runaway"))
+                run.end = "runaway"
+                break
         else:
             run.end = "partial"
     finally:
